@@ -118,7 +118,7 @@ class C05(PropBase):
                    "the primitive/constructed bit of the UnbindRequest attached to client errors is not asserted (C03's subject; 62 00 is pinned "
                    "by tests/test_controls.py)",
                    "custom types registered for the run raise ValueError on malformed values (harness types, not library code)"]
-    RUNS = {"quick": 40000, "thorough": 400000}
+    RUNS = {"quick": 40000, "thorough": 320000}
     STEPS = {"quick": 90, "thorough": 140}
     REQUIRED_REACH = ("error_with_residue", "error_with_ops_outstanding", "zero_len_integer_delivered", "deep_nest_over_limit",
                       "response_forwarded_and_recognised", "bytes_to_closed_session", "victim_client", "victim_server",
@@ -140,7 +140,7 @@ class C05(PropBase):
         kinds = faults.NODE_KINDS_RAW + faults.INTERIOR + faults.PDU_KINDS
         init.update(personality="uniform", term_p=0.0, quiesce_every=10 ** 9, odd_ints=False, huge=0.0,
                     fault_after=rng.choice([0, 1, 3, 6, 10, 16, 25, 40]), nfaults=rng.choice([1, 1, 1, 2, 4]),
-                    focus=kinds[self.idx % len(kinds)], sweep=(self.tier == "thorough" and self.idx % 8 == 0),
+                    focus=kinds[self.idx % len(kinds)], sweep=(self.tier == "thorough" and self.idx % 128 == 0),
                     sweep_seed=rng.getrandbits(32))
         return init
 
